@@ -15,7 +15,8 @@ RULE = (
     "full product splitter {expanding, sliding, single, sliding with an initial window} x window x step x fh (non-empty "
     "subsets of {1..3}) x n x strategy {refit, update} x scoring {default sMAPE, "
     "MAPE(symmetric=False), asymmetric make_forecasting_scorer, a greater_is_better=True scorer} x forecaster {recording "
-    "last/mean, Naive last/mean/drift, PolynomialTrend} x (X, return_data, forecaster already "
+    "last/mean, a recording forecaster whose update does not refit by default, Naive "
+    "last/mean/drift, PolynomialTrend} x (X, return_data, forecaster already "
     "fitted on the whole series before the call) in {(None,F,F), (1 col,T,F), (None,F,T)} "
     "(thorough: crossed). Oracle: honest per-fold loop in the harness with fresh "
     "clones + leak monitor on the recording forecaster's call log. non-trivial = >=2 folds."
@@ -26,7 +27,7 @@ ASSUMPTIONS = [
     "wall-clock columns (fit_time, pred_time) are not compared",
 ]
 
-FORECASTERS = ["rec_last", "rec_mean", "naive_last", "naive_mean", "naive_drift", "poly"]
+FORECASTERS = ["rec_last", "rec_mean", "naive_last", "naive_mean", "naive_drift", "poly", "rec_lazy"]
 SCORINGS = ["default", "mape_asym", "custom_asym", "custom_gib"]
 
 
@@ -100,6 +101,8 @@ def _mk_forecaster(name):
         return doubles.RecForecaster(tag="R", strategy="last")
     if name == "rec_mean":
         return doubles.RecForecaster(tag="R", strategy="mean")
+    if name == "rec_lazy":
+        return doubles.RecForecasterLazy(tag="R")
     if name == "poly":
         return PolynomialTrendForecaster(degree=1)
     return NaiveForecaster(strategy=name.split("_")[1])
